@@ -77,10 +77,10 @@ theorem C20_total (k : Nat) (venv : ValEnv) (denv : DegEnv) (bs : List Block) :
     (∃ r, valLoop k venv bs = r) ∧ (∃ r, degLoop k denv bs = r) := ⟨⟨_, rfl⟩, ⟨_, rfl⟩⟩
 
 /-- whatever the budget, every value claim on the CFG is right in every reachable state (C06 for every prefix) -/
-theorem C20_value_prefix_sound (p : Int) (bs : List Block) (hsd : SingleDef (stmtsOf bs))
+theorem C20_value_prefix_sound (p : Int) (bs : List Block) (hsd : SingleDef (MuOf bs) (stmtsOf bs))
     (hclean : ∀ s, s ∈ stmtsOf bs → NoValS s) :
-    ∀ k σ, Reach p (stmtsOf bs) σ → ∀ s, s ∈ stmtsOf (valStates ⟨p, [], []⟩ bs k).1 → SoundS σ p s :=
-  fun k => value_path_sound p bs hsd (fun σ _ s hs => noValS_sound σ p s (hclean s hs)) k
+    ∀ k σ, Reach p (stmtsOf bs) σ → ∀ s, s ∈ stmtsOf (valStates (valInit p bs) bs k).1 → SoundS (MuOf bs) σ p s :=
+  fun k => value_path_sound p bs hsd (fun σ _ s hs => noValS_sound (MuOf bs) σ p s (hclean s hs)) k
 
 /-- whatever the budget, every degree range on the CFG bounds its node in every reachable degree state
     (C07 for every prefix) -/
